@@ -33,6 +33,9 @@ CHECKS = {
  'C09': dict(level='exploration', technique='runtime monitor: acceptance and child counts of x~n..m vs arithmetic oracle; small_factors contract',
              text='For (n,m) pairs around every threshold of the factoring code (quick) and every 0<=n<=m<=140 (thorough, LALR+terminal) the parser must accept exactly k in [n,m] repetitions and return the k occurrences as consecutive children with no helper node; a contract on small_factors counts every call.',
              note='Bounds sampled up to 400; oracle is integer arithmetic.', ref='4 C09'),
+ 'C10': dict(level='exploration', technique='runtime monitor: history-independence oracle (every call vs fresh instance), instance-state fingerprint invariant at quiescent points, seeded line-level thread scheduler (sys.monitoring) with sequential-result oracle',
+             text='Random call histories (parse/lex/scan/interactive, failing and abandoned calls, other instances built in between, Indenter streams ending in DedentError or abandoned mid-block) on one instance: every result must equal the fresh-instance result and the digest of all instance-reachable state must stay constant after warm-up (lazy caches may appear once). Threads: 2-4 threads use a fresh instance under thousands of seeded, replayable statement-level interleavings of the lexer/front-end code; every thread must get the sequential result.',
+             note='Interleavings are sampled, at statement granularity, in the instrumented functions; callbacks are pure. Post-lexer fields are excluded from the digest (judged by behaviour).', ref='4 C10'),
  'C20': dict(level='exploration', technique='differential runtime monitor: forest transformers/visitors vs reference derivation enumeration; step budget + on_cycle observation on cyclic forests',
              text="For every accepted input the SPPF returned under ambiguity='forest' is walked by TreeForestTransformer (both modes), a counting ForestTransformer and a ForestVisitor; results are compared with the reference enumeration over the compiled rules (acyclic) or validated under a step budget with on_cycle observed (cyclic).",
              note='Trusts reference enumerator over Lark.rules (the forest names helper rules).', ref='4 C20'),
